@@ -120,18 +120,19 @@ func newSess(cs *Case) *sess {
 
 func (s *sess) jm(r, c int) ad.Matrix {
 	s.salt++
-	v := junkVals(r*c, s.salt, s.nan)
-	if s.e == "Real64" {
-		return ad.NewDenseReal64Matrix(v, r, c)
-	}
-	return ad.NewDenseFloat64Matrix(v, r, c)
+	return mkVals(s.e, junkVals(r*c, s.salt, s.nan), r, c)
 }
 
 func (s *sess) jv(n int) ad.Vector {
 	s.salt++
 	v := junkVals(n, s.salt, s.nan)
-	if s.e == "Real64" {
+	switch s.e {
+	case "Real64":
 		return ad.NewDenseReal64Vector(v)
+	case "Float32":
+		return ad.NewDenseFloat32Vector(to32(v))
+	case "Real32":
+		return ad.NewDenseReal32Vector(to32(v))
 	}
 	return ad.NewDenseFloat64Vector(v)
 }
